@@ -5,6 +5,8 @@ import (
 	"go/ast"
 	"go/token"
 	"go/types"
+	"golang.org/x/tools/go/packages"
+	"sort"
 	"strings"
 )
 
@@ -703,5 +705,131 @@ func ruleP10(r *Run) {
 	}
 	if n == 0 {
 		r.Undec("assertions on topic map values", 0, "nil markers are stored but no assertion to a pointer type was found")
+	}
+}
+
+// G21 (C10/C19): a loop whose condition does not depend on a call can only end if its body changes
+// one of the condition's variables itself. A variable that is only assigned inside a function
+// literal (a Range callback that does not run for an empty map) leaves the loop spinning.
+func init() {
+	register("G21", "every for loop whose condition contains no call is able to end by its own body: at least one variable of the condition is assigned (or incremented, or has its address taken) in the loop's post statement or in its body outside function literals - an assignment only inside a callback literal does not count, the callback may never run", 100, ruleG21)
+}
+
+func ruleG21(r *Run) {
+	p := r.P
+	n := 0
+	p.EachFunc(func(pkg *packages.Package, fd *ast.FuncDecl) {
+		info := pkg.TypesInfo
+		perFn := 0
+		ast.Inspect(fd.Body, func(m ast.Node) bool {
+			fs, ok := m.(*ast.ForStmt)
+			if !ok || fs.Cond == nil {
+				return true
+			}
+			hasCall := false
+			vars := map[types.Object]bool{}
+			ast.Inspect(fs.Cond, func(k ast.Node) bool {
+				switch x := k.(type) {
+				case *ast.CallExpr:
+					if !IsBuiltin(info, x, "len") && !IsBuiltin(info, x, "cap") {
+						if _, isConv := isConversion(info, x); !isConv {
+							hasCall = true
+						}
+					}
+				case *ast.UnaryExpr:
+					if x.Op == token.ARROW {
+						hasCall = true
+					}
+				case *ast.Ident:
+					if v, ok := info.Uses[x].(*types.Var); ok {
+						vars[v] = true
+					}
+				case *ast.SelectorExpr:
+					if fv := fieldOf(info, x); fv != nil {
+						vars[fv] = true
+					}
+				}
+				return true
+			})
+			n++
+			perFn++
+			key := fmt.Sprintf("loop on %s in %s #%d", types.ExprString(fs.Cond), p.DeclName(fd), perFn)
+			if hasCall || len(vars) == 0 {
+				r.Ok(key, fs.Pos(), "condition re-evaluates a call")
+				return true
+			}
+			changed := false
+			mark := func(e ast.Expr) {
+				e = ast.Unparen(e)
+				if o := identObj(info, e); o != nil && vars[o] {
+					changed = true
+				}
+				if fv := fieldOf(info, e); fv != nil && vars[fv] {
+					changed = true
+				}
+				// writes through an element or dereference of a condition variable
+				switch x := e.(type) {
+				case *ast.IndexExpr:
+					if o := identObj(info, x.X); o != nil && vars[o] {
+						changed = true
+					}
+				case *ast.StarExpr:
+					if o := identObj(info, x.X); o != nil && vars[o] {
+						changed = true
+					}
+				}
+			}
+			scan := func(node ast.Node) {
+				if node == nil {
+					return
+				}
+				ast.Inspect(node, func(k ast.Node) bool {
+					switch x := k.(type) {
+					case *ast.FuncLit:
+						return false
+					case *ast.AssignStmt:
+						for _, l := range x.Lhs {
+							mark(l)
+						}
+					case *ast.IncDecStmt:
+						mark(x.X)
+					case *ast.UnaryExpr:
+						if x.Op == token.AND {
+							mark(x.X)
+						}
+					case *ast.RangeStmt:
+						if x.Key != nil {
+							mark(x.Key)
+						}
+						if x.Value != nil {
+							mark(x.Value)
+						}
+					}
+					return true
+				})
+			}
+			scan(fs.Post)
+			scan(fs.Body)
+			// leaving by break/return is also a way out, but only if it does not depend on the same stuck variables;
+			// accept any unconditional exit statement directly in the body
+			if !changed {
+				for _, s := range fs.Body.List {
+					switch s.(type) {
+					case *ast.ReturnStmt, *ast.BranchStmt:
+						changed = true
+					}
+				}
+			}
+			var names []string
+			for v := range vars {
+				names = append(names, v.Name())
+			}
+			sort.Strings(names)
+			r.Check(changed, key, fs.Pos(), "a condition variable is updated by the loop itself", fmt.Sprintf("no variable of the condition (%s) is assigned in the loop's post statement or body outside function literals: when the callback that assigns it does not run (an empty map has nothing to Range over) the loop spins forever at full speed", strings.Join(names, ", ")))
+			return true
+		})
+	})
+	if n == 0 {
+		r.Undec("condition loops", 0, "no for loops with a condition found")
 	}
 }
